@@ -566,14 +566,14 @@ Definition expected (m : file_m) : data := map (fun a => (expected_key a, expect
 Fixpoint list_eqb {A} (eq : A -> A -> bool) (a b : list A) : bool :=
   match a, b with
   | [], [] => true
-  | x :: r, y :: s => eq x y && list_eqb eq r s
+  | x :: r, y :: s => if eq x y then list_eqb eq r s else false
   | _, _ => false
   end.
 
 Fixpoint list_match {A B} (f : A -> B -> bool) (a : list A) (b : list B) : bool :=
   match a, b with
   | [], [] => true
-  | x :: r, y :: s => f x y && list_match f r s
+  | x :: r, y :: s => if f x y then list_match f r s else false
   | _, _ => false
   end.
 
@@ -650,44 +650,65 @@ Definition match_azi (a : option azi) (o : obs_azi) : bool :=
   | _, _ => false
   end.
 
-Definition match_freq (m : string * fentry) (o : obs_freq) : bool :=
-  String.eqb (fst m) (of_code o)
-  && list_match (within_ulps 2) (fe_neu (snd m)) (of_neu o)
-  && list_match is_nearest_double (fe_noazi (snd m)) (of_noazi o)
-  && match_azi (fe_azi (snd m)) (of_azi o).
+(* which components of the result a comparison looks at *)
+Record parts := { p_rest : bool; p_dates : bool; p_grids : bool; p_azi : bool }.
+Definition P_all := {| p_rest := true; p_dates := true; p_grids := true; p_azi := true |}.
+Definition P_rest := {| p_rest := true; p_dates := false; p_grids := false; p_azi := false |}.
+Definition P_dates := {| p_rest := false; p_dates := true; p_grids := false; p_azi := false |}.
+Definition P_grids := {| p_rest := false; p_dates := false; p_grids := true; p_azi := false |}.
+Definition P_azi := {| p_rest := false; p_dates := false; p_grids := false; p_azi := true |}.
 
-Definition match_sat (now_lo now_hi : Z) (m : satinfo) (o : obs_sat) : bool :=
-  String.eqb (si_cospar m) (os_cospar o) && String.eqb (si_code m) (os_code o) && String.eqb (si_type m) (os_type o)
-  && match si_until m with
-     | Some t => us_close t (os_until o)
-     | None => (now_lo <=? os_until o)%Z && (os_until o <=? now_hi)%Z
-     end.
+Definition andl (l : list (unit -> bool)) : bool :=
+  fold_right (fun (f : unit -> bool) acc => if f tt then acc else false) true l.
 
-Definition match_entry (now_lo now_hi : Z) (m : akey * entry) (o : obs_entry) : bool :=
-  String.eqb (fst (fst m)) (oe_ant o)
-  && match snd (fst m), oe_from o with
-     | Some t, Some u => us_close t u
-     | None, None => true
-     | _, _ => false
-     end
-  && match en_sat (snd m), oe_sat o with
-     | Some s, Some t => match_sat now_lo now_hi s t
-     | None, None => true
-     | _, _ => false
-     end
-  && opt_match (list_match rad_close) (en_elev (snd m)) (oe_elev o)
-  && opt_match (list_match rad_close) (en_azim (snd m)) (oe_azim o)
-  && list_match match_freq (en_freqs (snd m)) (oe_freqs o).
+Definition match_freq (p : parts) (m : string * fentry) (o : obs_freq) : bool :=
+  andl [ (fun _ => if p_rest p then String.eqb (fst m) (of_code o) else true);
+         (fun _ => if p_rest p then list_match (within_ulps 2) (fe_neu (snd m)) (of_neu o) else true);
+         (fun _ => if p_rest p then list_match is_nearest_double (fe_noazi (snd m)) (of_noazi o) else true);
+         (fun _ => if p_azi p then match_azi (fe_azi (snd m)) (of_azi o) else true) ].
 
-(* every model entry is observed and every observed entry is in the model, equally many *)
-Definition match_data (now_lo now_hi : Z) (m : data) (o : list obs_entry) : bool :=
-  Nat.eqb (List.length m) (List.length o)
-  && forallb (fun x => existsb (match_entry now_lo now_hi x) o) m
-  && forallb (fun y => existsb (fun x => match_entry now_lo now_hi x y) m) o.
+Definition match_sat (p : parts) (now_lo now_hi : Z) (m : satinfo) (o : obs_sat) : bool :=
+  andl [ (fun _ => if p_rest p then
+                   (String.eqb (si_cospar m) (os_cospar o) && String.eqb (si_code m) (os_code o)
+                    && String.eqb (si_type m) (os_type o)) else true);
+         (fun _ => if p_dates p then
+                   match si_until m with
+                   | Some t => us_close t (os_until o)
+                   | None => (now_lo <=? os_until o)%Z && (os_until o <=? now_hi)%Z
+                   end else true) ].
 
-Definition match_res (now_lo now_hi : Z) (m : res data) (o : obs) : bool :=
+Definition match_entry (p : parts) (now_lo now_hi : Z) (m : akey * entry) (o : obs_entry) : bool :=
+  andl [ (fun _ => String.eqb (fst (fst m)) (oe_ant o));
+         (fun _ => match snd (fst m), oe_from o with
+                   | Some t, Some u => if p_dates p then us_close t u else true
+                   | None, None => true
+                   | _, _ => false
+                   end);
+         (fun _ => match en_sat (snd m), oe_sat o with
+                   | Some s, Some t => match_sat p now_lo now_hi s t
+                   | None, None => true
+                   | _, _ => false
+                   end);
+         (fun _ => if p_grids p then opt_match (list_match rad_close) (en_elev (snd m)) (oe_elev o) else true);
+         (fun _ => if p_grids p then opt_match (list_match rad_close) (en_azim (snd m)) (oe_azim o) else true);
+         (fun _ => if p_rest p || p_azi p then list_match (match_freq p) (en_freqs (snd m)) (oe_freqs o) else true) ].
+
+(* as_dict() groups the validity periods of one PRN under its name: entries of one name together, names in the
+   order of their first appearance *)
+Fixpoint names_of (d : data) (seen : list string) : list string :=
+  match d with
+  | [] => []
+  | (k, _) :: r => if existsb (String.eqb (fst k)) seen then names_of r seen else fst k :: names_of r (fst k :: seen)
+  end.
+Definition regroup (d : data) : data :=
+  flat_map (fun a => filter (fun e => String.eqb (fst (fst e)) a) d) (names_of d []).
+
+Definition match_data (p : parts) (now_lo now_hi : Z) (m : data) (o : list obs_entry) : bool :=
+  list_match (match_entry p now_lo now_hi) (regroup m) o.
+
+Definition match_res (p : parts) (now_lo now_hi : Z) (m : res data) (o : obs) : bool :=
   match m, o with
-  | Ok d, ObsOk l => match_data now_lo now_hi d l
+  | Ok d, ObsOk l => match_data p now_lo now_hi d l
   | Err e, ObsErr c => String.eqb e c
   | _, _ => false
   end.
@@ -697,25 +718,32 @@ Definition quirks_of_mask (k : Z) : quirks :=
   {| azi_accumulates := Z.testbit k 0; azi_strings := Z.testbit k 1;
      seconds_as_days := Z.testbit k 2; zen_count_float := Z.testbit k 3 |}.
 
-(* masks ordered by number of quirks: the verdict names a smallest explaining set *)
-Definition masks : list Z := [1; 2; 4; 8; 3; 5; 6; 9; 10; 12; 7; 11; 13; 14; 15]%Z.
-
-Fixpoint first_mask (ok : Z -> bool) (l : list Z) : option Z :=
-  match l with
-  | [] => None
-  | k :: r => if ok k then Some k else first_mask ok r
-  end.
+Definition first_some (l : list (unit -> option Z)) : option Z :=
+  fold_right (fun (f : unit -> option Z) acc => match f tt with Some k => Some k | None => acc end) None l.
 
 (* 0: the observation is what the specification model computes from the file's text;
-   16 + mask: it is what the model computes with exactly the quirks of [mask];  1: neither *)
+   16 + mask: it is what the model computes with exactly the quirks of [mask] (bit 0 azi_accumulates, 1 azi_strings,
+   2 seconds_as_days, 3 zen_count_float), [mask] being the least explanation per component (dates, grids, patterns);
+   1: neither *)
 Definition check_with (tbl : table) (case : list string * (Z * Z) * obs) : Z :=
   let '(lines, (lo, hi), o) := case in
   let lx := map (prelex tbl) (after_header lines) in
-  if match_res lo hi (parse_lexed all_off lx) o then 0%Z
-  else match first_mask (fun k => match_res lo hi (parse_lexed (quirks_of_mask k) lx) o) masks with
-       | Some k => (16 + k)%Z
-       | None => 1%Z
-       end.
+  let r0 := parse_lexed all_off lx in
+  if match_res P_all lo hi r0 o then 0%Z
+  else if negb (match_res P_rest lo hi r0 o) then 1%Z
+  else
+    let r13 := parse_lexed (quirks_of_mask 13) lx in
+    let try := fun (p : parts) (r : res data) (k : Z) (_ : unit) => if match_res p lo hi r o then Some k else None in
+    match first_some [try P_dates r0 0%Z; try P_dates r13 4%Z],
+          first_some [try P_grids r0 0%Z; try P_grids r13 8%Z],
+          first_some [try P_azi r0 0%Z; try P_azi r13 1%Z;
+                      (fun _ => try P_azi (parse_lexed (quirks_of_mask 2) lx) 2%Z tt);
+                      (fun _ => try P_azi (parse_lexed (quirks_of_mask 3) lx) 3%Z tt)] with
+    | Some a, Some b, Some c =>
+        let k := (a + b + c)%Z in
+        if match_res P_all lo hi (parse_lexed (quirks_of_mask k) lx) o then (16 + k)%Z else 1%Z
+    | _, _, _ => 1%Z
+    end.
 
 (* ground truth: 0 = the text is the rendering of m (comments etc. dropped) and the specification model
    with the given table reads exactly [expected m] from it;  3 = the independent writer and [render_body]
@@ -735,3 +763,66 @@ Definition truth_with (tbl : table) (case : file_m * list string) : Z :=
   if negb (list_eqb String.eqb (core_lines lines) (render_body m)) then 3%Z
   else if res_data_eqb (parse all_off tbl lines) (Ok (expected m)) then 0%Z
   else 2%Z.
+
+(* ====================================================================================== rendered files, lexed
+   What [prelex std_table] makes of the lines of [render_ant] (Proofs/C15_Lines.v: prelex_render_ant), and the
+   syntactic well-formedness of the printed tokens that this needs. *)
+Definition ev (pname : string) (v : values) : lexed := (Some (pname, v), false).
+
+Definition lex_valid (t : list string) (pname : string) : lexed :=
+  match t with
+  | [y; m; d; h; mi; s] =>
+      ev pname [("year", y); ("month", m); ("day", d); ("hour", h); ("minute", mi); ("second", s)]
+  | _ => ev pname [("year", ""); ("month", ""); ("day", ""); ("hour", ""); ("minute", ""); ("second", "")]
+  end.
+
+Definition lex_opt_valid (t : option (list string)) (pname : string) : list lexed :=
+  match t with Some t => [lex_valid t pname] | None => [] end.
+
+Definition lex_freq (f : freq_m) : list lexed :=
+  [ ev "parse_section_string" [("frequency_code", fm_code f)];
+    ev "parse_section_float" [("north", fm_north f); ("east", fm_east f); ("up", fm_up f)];
+    ev "parse_correction" [("values", "NOAZI" ++ render_values (fm_noazi f))] ]
+  ++ map (fun r => ev "parse_correction" [("values", fst r ++ render_values (snd r))]) (fm_rows f)
+  ++ [ ev "save_correction" [("frequency_code", fm_code f)] ].
+
+Definition lex_ant_head (a : ant_m) : list lexed :=
+  [ (None, false);
+    ev "parse_section_string" [("antenna_type", am_type a); ("antenna_code", am_serial a); ("sat_code", am_sat a);
+                               ("cospar_id", am_cospar a)];
+    ev "parse_section_float" [("dazi", am_dazi a)];
+    ev "parse_section_float" [("zen1", am_zen1 a); ("zen2", am_zen2 a); ("dzen", am_dzen a)];
+    ev "parse_num_of_frequencies" [("num_freq", am_nfreq a)] ]
+  ++ lex_opt_valid (am_from a) "parse_valid_from"
+  ++ lex_opt_valid (am_until a) "parse_valid_until".
+
+Definition lex_ant (a : ant_m) : list lexed :=
+  lex_ant_head a ++ List.concat (map lex_freq (am_freqs a)) ++ [ (None, true) ].
+
+Definition numch (c : ascii) : bool :=
+  match digit_of c with Some _ => true | None => Ascii.eqb c "+" || Ascii.eqb c "-" || Ascii.eqb c "." end.
+
+(* a printed number: non-empty, only digits, signs and the point, at most w characters *)
+Definition numtok (w : nat) (s : string) : bool :=
+  negb (String.eqb s "") && all_by numch s && Nat.leb (len s) w.
+
+(* a text field: no outer blanks, at most w characters *)
+Definition fitsb (w : nat) (s : string) : bool := trimmed s && Nat.leb (len s) w.
+
+Definition wf_valid (t : option (list string)) : bool :=
+  match t with
+  | None => true
+  | Some [y; m; d; h; mi; s] => numtok 6 y && numtok 6 m && numtok 6 d && numtok 6 h && numtok 6 mi && numtok 13 s
+  | Some _ => false
+  end.
+
+Definition wf_freq (f : freq_m) : bool :=
+  fitsb 3 (fm_code f) && numtok 10 (fm_north f) && numtok 10 (fm_east f) && numtok 10 (fm_up f)
+  && forallb (numtok 7) (fm_noazi f)
+  && forallb (fun r => numtok 8 (fst r) && forallb (numtok 7) (snd r)) (fm_rows f).
+
+Definition wf_ant (a : ant_m) : bool :=
+  fitsb 20 (am_type a) && fitsb 20 (am_serial a) && fitsb 10 (am_sat a) && fitsb 10 (am_cospar a)
+  && numtok 6 (am_dazi a) && numtok 6 (am_zen1 a) && numtok 6 (am_zen2 a) && numtok 6 (am_dzen a)
+  && numtok 6 (am_nfreq a) && wf_valid (am_from a) && wf_valid (am_until a)
+  && forallb wf_freq (am_freqs a).
